@@ -192,8 +192,8 @@ def RelKind.fits (sel : EndSel) : RelKind → Bool
 def dependents (d : ClassDiagram) (c a : Nat) : List (String × String) :=
   (d.classes.map (fun k => (k.attrs.filter (fun x => x.kind == .ref c a)).map (fun x => (k.kl, x.name)))).flatten
 
-def countInScope {α : Type} (cs : List Container) (comp : Option Nat) (par : α → Parent) (l : List α) : Nat :=
-  (l.filter (fun x => inScope cs comp (par x))).length
+def countInScope {α : Type} (cs : List Container) (rf : List PkgRef) (comp : Option Nat) (par : α → Parent) (l : List α) : Nat :=
+  (l.filter (fun x => inScope cs rf comp (par x))).length
 
 def resolve (d : ClassDiagram) (comp : Option Nat) (drv : Bool) (e : Edit) : SEdit :=
   match e with
@@ -233,21 +233,21 @@ def resolve (d : ClassDiagram) (comp : Option Nat) (drv : Bool) (e : Edit) : SEd
   | .moveClass c p =>
     match findClass d c with
     | some k =>
-      match inScope d.containers comp k.parent, inScope d.containers comp p with
+      match inScope d.containers d.pkgrefs comp k.parent, inScope d.containers d.pkgrefs comp p with
       | true, false => .dropClass k.kl
       | false, true =>
-        .insertClass (countInScope d.containers comp Class.parent (d.classes.takeWhile (fun x => x.id != c)))
+        .insertClass (countInScope d.containers d.pkgrefs comp Class.parent (d.classes.takeWhile (fun x => x.id != c)))
           (classOf d drv k)
       | _, _ => .nop
     | none => .nop
   | .moveRel r p =>
     match findRel d r with
     | some k =>
-      match inScope d.containers comp k.parent, inScope d.containers comp p, groupOf d k with
+      match inScope d.containers d.pkgrefs comp k.parent, inScope d.containers d.pkgrefs comp p, groupOf d k with
       | true, false, some _ => .dropGroup k.numb
       | false, true, some g =>
         .insertGroup (((d.rels.takeWhile (fun x => x.id != r)).filter
-            (fun x => inScope d.containers comp x.parent)).filterMap (groupOf d)).length g
+            (fun x => inScope d.containers d.pkgrefs comp x.parent)).filterMap (groupOf d)).length g
       | _, _, _ => .nop
     | none => .nop
 
